@@ -57,7 +57,7 @@ func c19StaticCases(tab *LockTable, tbl, typ string, only *c19Replay) []Case {
 			return
 		}
 		key := typ + "|" + rp.Kind + "|" + rp.Method + "|" + rp.Table + "|" + rp.Mutex
-		if rp.Kind == "access" || rp.Kind == "acquire" {
+		if rp.Kind == "access" || rp.Kind == "acquire" || rp.Kind == "return" {
 			for _, m := range tab.Methods {
 				if m.Name == rp.Method {
 					rp.Methods = []LMethod{m}
@@ -70,10 +70,10 @@ func c19StaticCases(tab *LockTable, tbl, typ string, only *c19Replay) []Case {
 	for _, m := range tab.Methods {
 		seenT, seenM := map[string]bool{}, map[string]bool{}
 		for _, s := range m.Body {
-			if s.Acq != "" {
-				if !seenM[s.Acq] {
-					seenM[s.Acq] = true
-					add(fmt.Sprintf("KAcquire %s %s %s", tbl, Q(m.Name), Q(s.Acq)), c19Replay{Kind: "acquire", Method: m.Name, Mutex: s.Acq}, true)
+			if mu := s.Acq + s.Lock; mu != "" {
+				if !seenM[mu] {
+					seenM[mu] = true
+					add(fmt.Sprintf("KAcquire %s %s %s", tbl, Q(m.Name), Q(mu)), c19Replay{Kind: "acquire", Method: m.Name, Mutex: mu}, true)
 				}
 				continue
 			}
@@ -85,6 +85,7 @@ func c19StaticCases(tab *LockTable, tbl, typ string, only *c19Replay) []Case {
 			}
 		}
 		add(fmt.Sprintf("KCalls %s %s", tbl, Q(m.Name)), c19Replay{Kind: "calls", Method: m.Name}, false)
+		add(fmt.Sprintf("KReturn %s %s", tbl, Q(m.Name)), c19Replay{Kind: "return", Method: m.Name}, len(m.Body) > 0)
 	}
 	return cs
 }
@@ -102,8 +103,8 @@ func c19Footprint(tab *LockTable) map[string]map[string]bool {
 			return
 		}
 		for _, s := range byName[name].Body {
-			if s.Acq != "" {
-				into["m:"+s.Acq] = true
+			if s.Acq+s.Lock != "" {
+				into["m:"+s.Acq+s.Lock] = true
 			}
 			for _, it := range s.Items {
 				if it.Acc != "" {
@@ -250,6 +251,7 @@ func c19BuildRaceBinary(e Env) (string, error) {
 }
 
 type pairResult struct {
+	Hung    bool
 	F, G    string
 	Raced   bool
 	InStore bool
@@ -259,7 +261,7 @@ type pairResult struct {
 
 // c19RunPairs runs all unordered pairs of the given methods in the child; a child that dies with a
 // runtime fatal error ("concurrent map writes") is restarted after the pair that killed it
-func c19RunPairs(bin string, methods []string, only *c19Replay, out *Out) ([]pairResult, error) {
+func c19RunPairs(bin string, methods, skipMethods []string, only *c19Replay, out *Out) ([]pairResult, error) {
 	names := methods
 	if only != nil {
 		names = []string{only.F}
@@ -275,8 +277,9 @@ func c19RunPairs(bin string, methods []string, only *c19Replay, out *Out) ([]pai
 		if restarts > 40 {
 			return nil, fmt.Errorf("race child restarted too often")
 		}
-		cmd := exec.Command(bin, "-test.run", "^TestPairs$", "-test.count=1", "-test.timeout=300s")
-		cmd.Env = append(os.Environ(), "C19R_METHODS="+strings.Join(names, ","), fmt.Sprintf("C19R_SKIP=%d", done),
+		cmd := exec.Command(bin, "-test.run", "^TestPairs$", "-test.count=1", "-test.timeout=900s")
+		// methods that leak a mutex when called sequentially (leak probe) would only hang here
+		cmd.Env = append(os.Environ(), "C19R_METHODS="+strings.Join(names, ","), fmt.Sprintf("C19R_SKIP=%d", done), "C19R_SKIPMETHODS="+strings.Join(skipMethods, ","),
 			"C19R_STAGGER_US=400", "GORACE=halt_on_error=0")
 		var buf bytes.Buffer
 		cmd.Stdout = &buf
@@ -304,7 +307,17 @@ func c19RunPairs(bin string, methods []string, only *c19Replay, out *Out) ([]pai
 					case "END":
 						cur = -1
 						done = i + 1
+					case "SKIPPED":
+						res[i] = pairResult{F: f[2], G: f[3], Missing: true}
+						out.Count("pair-skipped-method-leaks-a-mutex")
+						done = i + 1
+					case "HUNG":
+						res[i].F, res[i].G = f[2], f[3]
+						res[i].Hung = true
+						cur = -1
+						done = i + 1
 					case "NOMETHOD":
+						out.Count("pair-method-not-exported")
 						res[i] = pairResult{F: f[2], G: f[3], Missing: true}
 						done = i + 1
 					}
@@ -419,20 +432,35 @@ func runC19(t *testing.T, e Env) {
 		}
 	}
 	t0 := time.Now()
+	// A shape outside the translator's fragment is a hard failure of the static part: no static
+	// and no pair case is produced, the run cannot pass (KTranslator is a correspondence failure
+	// that no known finding can match).  The dynamic streams still run, so that a failing input
+	// is found where there is one.
+	trErr := ""
 	tab, err := TranslateLocks(repoDir())
 	if err != nil {
-		t.Fatalf("C19 translator: storage/*.go contains a construct the lock translator does not recognise (hard failure, nothing was checked): %v", err)
+		trErr = fmt.Sprintf("storage/*.go contains a construct the lock translator does not recognise (nothing static was checked): %v", err)
+		tab = &LockTable{}
 	}
 	ctab, err := TranslateConfig(repoDir())
 	if err != nil {
-		t.Fatalf("C19 translator: the methods of fosite.Config contain a construct the translator does not recognise (hard failure, nothing was checked): %v", err)
+		trErr += fmt.Sprintf(" the methods of fosite.Config contain a construct the translator does not recognise: %v", err)
+		ctab = &LockTable{}
+	}
+	if trErr != "" {
+		t.Logf("C19 translator: %s", trErr)
+		if only == nil {
+			msg := strings.ReplaceAll(trErr, repoDir()+"/", "")
+			out.Add(Case{Coq: "KTranslator " + Q(msg), Replay: c19Replay{Kind: "translator", Report: trErr}, Key: "translator"})
+			out.Count("translator-hard-failure")
+		}
 	}
 	preamble := "Definition tbl : list method :=\n " + tab.Coq() + ".\nDefinition cfgtbl : list method :=\n " + ctab.Coq() + ".\n"
 	out.Notes["lock_table"] = tab
 	out.Notes["translator"] = fmt.Sprintf("storage.MemoryStore: %d methods, %d mutexes, %d tables; fosite.Config: %d methods, %d fields, %d mutexes; read from %s",
 		len(tab.Methods), len(tab.Mutexes), len(tab.Tables), len(ctab.Methods), len(ctab.Tables), len(ctab.Mutexes), repoDir())
 
-	if only == nil || only.Kind == "access" || only.Kind == "acquire" || only.Kind == "calls" || only.Kind == "names" {
+	if (only == nil && trErr == "") || only != nil && (only.Kind == "access" || only.Kind == "acquire" || only.Kind == "calls" || only.Kind == "names" || only.Kind == "return") {
 		for _, c := range c19StaticCases(tab, "tbl", "store", only) {
 			out.Add(c)
 			out.Count("static-store-" + c.Replay.(c19Replay).Kind)
@@ -442,7 +470,11 @@ func runC19(t *testing.T, e Env) {
 			out.Count("static-config-" + c.Replay.(c19Replay).Kind)
 		}
 	}
-	if only == nil || only.Kind == "pair" {
+	var leaky []string
+	if only == nil || only.Kind == "leak" {
+		leaky = c19LeakStream(t, e, out, only)
+	}
+	if (only == nil && trErr == "") || (only != nil && only.Kind == "pair") {
 		bin, err := c19BuildRaceBinary(e)
 		if err != nil {
 			t.Fatal(err)
@@ -451,14 +483,19 @@ func runC19(t *testing.T, e Env) {
 		for _, m := range tab.Methods {
 			names = append(names, m.Name)
 		}
-		res, err := c19RunPairs(bin, names, only, out)
+		res, err := c19RunPairs(bin, names, leaky, only, out)
 		if err != nil {
 			t.Fatal(err)
 		}
 		fp := c19Footprint(tab)
 		for _, p := range res {
 			if p.Missing {
-				out.Count("pair-method-not-exported")
+				continue
+			}
+			if p.Hung {
+				out.Add(Case{Coq: fmt.Sprintf("KHung %s", Q(p.F+"+"+p.G)), Replay: c19Replay{Kind: "pair", F: p.F, G: p.G, Report: "the two goroutines did not finish within the watchdog time"},
+					NonTrivial: true, Key: "pairhung|" + p.F + "|" + p.G})
+				out.Count("pair-hung")
 				continue
 			}
 			nt := false
